@@ -55,3 +55,49 @@ Print Assumptions C12_supported_general.
 Theorem C12_next_pred_meaning : forall (sym_lt : sym -> sym -> Prop) (dom mn nx : string) (P : list stmt) (I : list (string * list sym)) (T : interp), sym_order sym_lt -> (forall (line : nat) (h : head) (b : list bodyelem), In (SRule line h b) P -> gen_head h) -> In (min_rule dom mn) P -> In (next_rule_base dom mn nx) P -> In (next_rule_step dom nx) P -> (forall (line : nat) (h : head) (b : list bodyelem), In (SRule line h b) P -> In (mn, 1) (head_names h) -> SRule line h b = min_rule dom mn) -> (forall (line : nat) (h : head) (b : list bodyelem), In (SRule line h b) P -> In (nx, 2) (head_names h) -> SRule line h b = next_rule_base dom mn nx \/ SRule line h b = next_rule_step dom nx) -> (forall v : sym, ~ In (mn, v :: nil) I) -> (forall p n : sym, ~ In (nx, p :: n :: nil) I) -> stable sym_lt P I T -> (exists l : list sym, forall v : sym, T (dom, v :: nil) <-> In v l) -> exists D : list sym, Sorted.StronglySorted sym_lt D /\ (forall v : sym, T (dom, v :: nil) <-> In v D) /\ (forall v : sym, T (mn, v :: nil) <-> hd_error D = Some v) /\ (forall p n : sym, T (nx, p :: n :: nil) <-> consecutive sym D p n).
 Proof. exact (@next_pred_meaning). Qed.
 Print Assumptions C12_next_pred_meaning.
+
+From NGO Require Import Sem.Sym Sem.Sat Link.Equiv Link.MinMaxSem.
+
+Theorem C12_simple_translation_rule_sound : forall sym_lt : Ast.sym -> Ast.sym -> Prop, sym_order sym_lt -> forall (G : list string) (H T : interp) (h : Ast.head) (B : list Ast.bodyelem) (f : Ast.aggfun) (c : Ast.cmp) (w : Ast.term) (res : list ((string -> string) * Ast.belem)) (G' : (string -> string) * Ast.belem -> list string), subi H T -> own_dir f c -> (forall re : (string -> string) * Ast.belem, In re res -> elem_ok G (rest_vars G h B w) (fst re) (snd re)) -> (forall re : (string -> string) * Ast.belem, In re res -> gweak_ok G (G' re) h B) -> (forall s : subst, has_ext sym_lt f (AggSem.elems_tuples sym_lt G H T s (map snd res))) -> (forall s : subst, has_ext sym_lt f (AggSem.elems_tuples sym_lt G T T s (map snd res))) -> (forall (X : interp) (s : subst) (a : Ast.sym), body_sat sym_lt G X T s B -> eval s w = Some a -> bad_bound f c <> Some a) -> rule_sat sym_lt G H T h (B ++ Ast.BLit (agg_lit Ast.NoSign c w f (map snd res)) :: nil) <-> (forall re : (string -> string) * Ast.belem, In re res -> rule_sat sym_lt (G' re) H T h (B ++ elem_body Ast.NoSign c w (ren_elem (fst re) (snd re)))).
+Proof. exact (@MinMaxSem.simple_translation_rule_sound). Qed.
+Print Assumptions C12_simple_translation_rule_sound.
+
+Theorem C12_max_lower_bound_rule_sound : forall sym_lt : Ast.sym -> Ast.sym -> Prop, sym_order sym_lt -> forall (G : list string) (H T : interp) (h : Ast.head) (B : list Ast.bodyelem) (c : Ast.cmp) (w : Ast.term) (res : list ((string -> string) * Ast.belem)) (G' : (string -> string) * Ast.belem -> list string), subi H T -> c = Ast.CLt \/ c = Ast.CLe -> (forall re : (string -> string) * Ast.belem, In re res -> elem_ok G (rest_vars G h B w) (fst re) (snd re)) -> (forall re : (string -> string) * Ast.belem, In re res -> gweak_ok G (G' re) h B) -> (forall s : subst, has_max sym_lt (AggSem.elems_tuples sym_lt G H T s (map snd res))) -> (forall s : subst, has_max sym_lt (AggSem.elems_tuples sym_lt G T T s (map snd res))) -> (c = Ast.CLe -> forall (X : interp) (s : subst), body_sat sym_lt G X T s B -> eval s w <> Some Ast.SInf) -> rule_sat sym_lt G H T h (B ++ Ast.BLit (Ast.Lit Ast.NoSign (Ast.ABodyAgg (Some (c, w)) Ast.FMax (map snd res) None)) :: nil) <-> (forall re : (string -> string) * Ast.belem, In re res -> rule_sat sym_lt (G' re) H T h (B ++ elem_body Ast.NoSign c w (ren_elem (fst re) (snd re)))).
+Proof. exact (@MinMaxSem.max_lower_bound_rule_sound). Qed.
+Print Assumptions C12_max_lower_bound_rule_sound.
+
+Theorem C12_min_upper_bound_rule_sound : forall sym_lt : Ast.sym -> Ast.sym -> Prop, sym_order sym_lt -> forall (G : list string) (H T : interp) (h : Ast.head) (B : list Ast.bodyelem) (c : Ast.cmp) (w : Ast.term) (res : list ((string -> string) * Ast.belem)) (G' : (string -> string) * Ast.belem -> list string), subi H T -> c = Ast.CGt \/ c = Ast.CGe -> (forall re : (string -> string) * Ast.belem, In re res -> elem_ok G (rest_vars G h B w) (fst re) (snd re)) -> (forall re : (string -> string) * Ast.belem, In re res -> gweak_ok G (G' re) h B) -> (forall s : subst, has_min sym_lt (AggSem.elems_tuples sym_lt G H T s (map snd res))) -> (forall s : subst, has_min sym_lt (AggSem.elems_tuples sym_lt G T T s (map snd res))) -> (c = Ast.CGe -> forall (X : interp) (s : subst), body_sat sym_lt G X T s B -> eval s w <> Some Ast.SSup) -> rule_sat sym_lt G H T h (B ++ Ast.BLit (Ast.Lit Ast.NoSign (Ast.ABodyAgg (Some (c, w)) Ast.FMin (map snd res) None)) :: nil) <-> (forall re : (string -> string) * Ast.belem, In re res -> rule_sat sym_lt (G' re) H T h (B ++ elem_body Ast.NoSign c w (ren_elem (fst re) (snd re)))).
+Proof. exact (@MinMaxSem.min_upper_bound_rule_sound). Qed.
+Print Assumptions C12_min_upper_bound_rule_sound.
+
+Theorem C12_simple_translation_program_sound : forall sym_lt : Ast.sym -> Ast.sym -> Prop, sym_order sym_lt -> forall (P1 P2 : list Ast.stmt) (ln : nat) (h : Ast.head) (B : list Ast.bodyelem) (f : Ast.aggfun) (c : Ast.cmp) (w : Ast.term) (res : list ((string -> string) * Ast.belem)), own_dir f c -> elems_ok h B Ast.NoSign c w f res -> (forall (I : list gatom) (T : interp), stable sym_lt (P1 ++ (source_stmt ln h B Ast.NoSign c w f res :: nil) ++ P2) I T \/ stable sym_lt (P1 ++ target_stmts ln h B Ast.NoSign c w res ++ P2) I T -> forall s : subst, fin_heads (AggSem.elems_tuples sym_lt (source_gvars h B Ast.NoSign c w f res) T T s (map snd res))) -> (forall (X T : interp) (s : subst) (a : Ast.sym), body_sat sym_lt (source_gvars h B Ast.NoSign c w f res) X T s B -> eval s w = Some a -> bad_bound f c <> Some a) -> equiv_all sym_lt (P1 ++ (source_stmt ln h B Ast.NoSign c w f res :: nil) ++ P2) (P1 ++ target_stmts ln h B Ast.NoSign c w res ++ P2).
+Proof. exact (@MinMaxSem.simple_translation_program_sound). Qed.
+Print Assumptions C12_simple_translation_program_sound.
+
+Theorem C12_negated_total_sound : forall sym_lt : Ast.sym -> Ast.sym -> Prop, sym_order sym_lt -> forall (G : list string) (T : interp) (h : Ast.head) (B : list Ast.bodyelem) (f : Ast.aggfun) (c : Ast.cmp) (w : Ast.term) (res : list ((string -> string) * Ast.belem)) (G' : (string -> string) * Ast.belem -> list string), opp_dir f c -> (forall re : (string -> string) * Ast.belem, In re res -> elem_ok G (rest_vars G h B w) (fst re) (snd re)) -> (forall re : (string -> string) * Ast.belem, In re res -> gweak_ok G (G' re) h B) -> (forall s : subst, has_ext sym_lt f (AggSem.elems_tuples sym_lt G T T s (map snd res))) -> (forall s : subst, body_sat sym_lt G T T s B -> eval s w <> None) -> (forall (s : subst) (a : Ast.sym), body_sat sym_lt G T T s B -> eval s w = Some a -> neg_bad_bound f c <> Some a) -> rule_sat sym_lt G T T h (B ++ Ast.BLit (agg_lit Ast.Neg c w f (map snd res)) :: nil) <-> (forall re : (string -> string) * Ast.belem, In re res -> rule_sat sym_lt (G' re) T T h (B ++ elem_body Ast.Neg c w (ren_elem (fst re) (snd re)))).
+Proof. exact (@MinMaxSem.negated_simple_translation_total_sound). Qed.
+Print Assumptions C12_negated_total_sound.
+
+Theorem C12_negated_ht_partial : forall sym_lt : Ast.sym -> Ast.sym -> Prop, sym_order sym_lt -> forall (G : list string) (H T : interp) (h : Ast.head) (B : list Ast.bodyelem) (f : Ast.aggfun) (c : Ast.cmp) (w : Ast.term) (res : list ((string -> string) * Ast.belem)) (G' : (string -> string) * Ast.belem -> list string), subi H T -> opp_dir f c -> (forall re : (string -> string) * Ast.belem, In re res -> elem_ok G (rest_vars G h B w) (fst re) (snd re)) -> (forall re : (string -> string) * Ast.belem, In re res -> gweak_ok G (G' re) h B) -> rule_sat sym_lt G H T h (B ++ Ast.BLit (agg_lit Ast.Neg c w f (map snd res)) :: nil) -> forall re : (string -> string) * Ast.belem, In re res -> rule_sat sym_lt (G' re) H T h (B ++ elem_body Ast.Neg c w (ren_elem (fst re) (snd re))).
+Proof. exact (@MinMaxSem.negated_simple_translation_ht_partial). Qed.
+Print Assumptions C12_negated_ht_partial.
+
+Theorem C12_negated_ht_refuted : forall sym_lt : Ast.sym -> Ast.sym -> Prop, sym_order sym_lt -> subi neg_H neg_T /\ elems_ok head_a nil Ast.Neg Ast.CLt neg_w Ast.FMin neg_res /\ ~ stmt_sat sym_lt neg_H neg_T neg_src /\ (forall st : Ast.stmt, In st neg_tgts -> stmt_sat sym_lt neg_H neg_T st).
+Proof. exact (@MinMaxSem.negated_simple_translation_ht_refuted). Qed.
+Print Assumptions C12_negated_ht_refuted.
+
+Theorem C12_negated_stable_partial : forall sym_lt : Ast.sym -> Ast.sym -> Prop, sym_order sym_lt -> forall (P1 P2 : list Ast.stmt) (ln : nat) (h : Ast.head) (B : list Ast.bodyelem) (f : Ast.aggfun) (c : Ast.cmp) (w : Ast.term) (res : list ((string -> string) * Ast.belem)) (I : list gatom) (T : interp), opp_dir f c -> elems_ok h B Ast.Neg c w f res -> (forall s : subst, has_ext sym_lt f (AggSem.elems_tuples sym_lt (source_gvars h B Ast.Neg c w f res) T T s (map snd res))) -> (forall s : subst, body_sat sym_lt (source_gvars h B Ast.Neg c w f res) T T s B -> eval s w <> None) -> (forall (s : subst) (a : Ast.sym), body_sat sym_lt (source_gvars h B Ast.Neg c w f res) T T s B -> eval s w = Some a -> neg_bad_bound f c <> Some a) -> stable sym_lt (P1 ++ target_stmts ln h B Ast.Neg c w res ++ P2) I T -> stable sym_lt (P1 ++ (source_stmt ln h B Ast.Neg c w f res :: nil) ++ P2) I T.
+Proof. exact (@MinMaxSem.negated_simple_translation_stable_partial). Qed.
+Print Assumptions C12_negated_stable_partial.
+
+Theorem C12_negated_pass_refuted : forall sym_lt : Ast.sym -> Ast.sym -> Prop, sym_order sym_lt -> exists Q : list Ast.stmt, MinMax.mm_execute neg_P nil neg_P = Ast.Ok Q /\ ~ equiv_all sym_lt neg_P Q.
+Proof. exact (@MinMaxSem.negated_pass_refuted). Qed.
+Print Assumptions C12_negated_pass_refuted.
+
+Theorem C12_inf_bound_refuted : forall sym_lt : Ast.sym -> Ast.sym -> Prop, elems_ok head_a le_B Ast.NoSign Ast.CLe (Ast.TVar "W") Ast.FMax le_res /\ (forall (H : interp) (s : subst), subi H le_T -> has_max sym_lt (AggSem.elems_tuples sym_lt (source_gvars head_a le_B Ast.NoSign Ast.CLe (Ast.TVar "W") Ast.FMax le_res) H le_T s (map snd le_res))) /\ ~ stmt_sat sym_lt le_T le_T le_src /\ (forall st : Ast.stmt, In st le_tgts -> stmt_sat sym_lt le_T le_T st).
+Proof. exact (@MinMaxSem.inf_bound_refuted). Qed.
+Print Assumptions C12_inf_bound_refuted.
+
+Theorem C12_ex_pass_sound : forall sym_lt : Ast.sym -> Ast.sym -> Prop, sym_order sym_lt -> exists Q : list Ast.stmt, MinMax.mm_execute ex_P nil ex_P = Ast.Ok Q /\ equiv_all sym_lt ex_P Q.
+Proof. exact (@MinMaxSem.ex_pass_sound). Qed.
+Print Assumptions C12_ex_pass_sound.
